@@ -16,10 +16,10 @@ PY
 )
 cp "$sd/demo_test.go" "$wt/$pkgdir/zz_seed_demo_test.go"
 cd "$wt"
-base=$(timeout 900 go test -vet=off -count=1 -run 'Seed|SeedC|C[0-9][0-9]Seed' ./$pkgdir/ 2>&1 | tail -n 1)
+base=$(timeout 900 go test -vet=off -count=1 -run 'Seed|Demo' ./$pkgdir/ 2>&1 | tail -n 1)
 if ! git apply "$sd/patch.diff" 2>/dev/null; then echo "$id: PATCH-DOES-NOT-APPLY"; cd /; git -C /repo worktree remove --force "$wt"; exit 0; fi
 build=ok; go build ./... >/dev/null 2>&1 || build=FAIL
-mut=$(timeout 900 go test -vet=off -count=1 -run 'Seed|SeedC|C[0-9][0-9]Seed' ./$pkgdir/ 2>&1 | tail -n 1)
+mut=$(timeout 900 go test -vet=off -count=1 -run 'Seed|Demo' ./$pkgdir/ 2>&1 | tail -n 1)
 rm "$wt/$pkgdir/zz_seed_demo_test.go"
 changed=$(git diff --name-only | xargs -n1 dirname | sort -u | sed 's|^|./|' | tr '\n' ' ')
 suite=$(timeout 1500 go test -vet=off -count=1 $changed 2>&1 | grep -c '^FAIL\|^--- FAIL' )
